@@ -22,11 +22,22 @@ pub trait WireCtl {
     fn deliver(&self, n: usize) -> usize;
     /// delivered to the receiver's stream but not yet consumed by a tick
     fn unconsumed(&self) -> usize;
+    /// the channel's declared guarantee admits reordering (`lossy_delayed_forever`: `NoOrder`)
+    fn reorders(&self) -> bool {
+        false
+    }
+    /// deliver the in-flight message at position `i` (only for reordering wires)
+    fn deliver_at(&self, _i: usize) -> usize {
+        0
+    }
 }
 
 /// One FIFO wire. `M` = what the sender's closure produced; `push` hands it to the receiver.
 pub struct Wire<M> {
     pub q: Rc<RefCell<VecDeque<M>>>,
+    /// `false`: FIFO (`TCP.fail_stop()`); `true`: any in-flight message may overtake
+    /// (`lossy_delayed_forever()`: dropped messages are indefinitely delayed, output `NoOrder`)
+    pub reorder: bool,
     push: Box<dyn Fn(M)>,
     unconsumed: Box<dyn Fn() -> usize>,
 }
@@ -35,10 +46,15 @@ impl<M: 'static> Wire<M> {
         let q2 = Queue(to.0.clone());
         let q3 = Queue(to.0.clone());
         Wire {
+            reorder: false,
             q: Rc::new(RefCell::new(VecDeque::new())),
             push: Box::new(move |m| q2.push(conv(m))),
             unconsumed: Box::new(move || q3.len()),
         }
+    }
+    pub fn reordering(mut self) -> Self {
+        self.reorder = true;
+        self
     }
     pub fn sender(&self) -> impl FnMut(M) + 'static {
         let q = self.q.clone();
@@ -61,6 +77,19 @@ impl<M> WireCtl for Wire<M> {
     }
     fn unconsumed(&self) -> usize {
         (self.unconsumed)()
+    }
+    fn reorders(&self) -> bool {
+        self.reorder
+    }
+    fn deliver_at(&self, i: usize) -> usize {
+        let m = self.q.borrow_mut().remove(i);
+        match m {
+            Some(m) => {
+                (self.push)(m);
+                1
+            }
+            None => 0,
+        }
     }
 }
 
@@ -113,7 +142,17 @@ pub fn drive_net(plan: &Plan, locs: &mut [LocCtl<'_>], wires: &[&dyn WireCtl], n
         let in_flight: usize = wires.iter().map(|w| w.in_flight()).sum();
         st.max_in_flight = st.max_in_flight.max(in_flight);
         let l = net.pick_loc(n);
-        let counts: Vec<usize> = locs[l].inbound.iter().map(|w| net.deliver(wires[*w].in_flight())).collect();
+        let mut counts: Vec<usize> = locs[l].inbound.iter().map(|w| net.deliver(wires[*w].in_flight())).collect();
+        for (k, w) in locs[l].inbound.iter().enumerate() {
+            if wires[*w].reorders() {
+                // the simulator picks *which* in-flight messages arrive, in which order
+                for _ in 0..counts[k] {
+                    let i = net.pick_msg(wires[*w].in_flight());
+                    st.delivered += wires[*w].deliver_at(i);
+                }
+                counts[k] = 0;
+            }
+        }
         step_one(l, locs, &mut st, &mut work, &counts);
     }
     // drain, fairly: `max_drain` rounds in which every location ticks once with immediate
@@ -159,7 +198,7 @@ fn to_recv(b: Bytes) -> RecvItem {
     Ok(BytesMut::from(&b[..]))
 }
 
-use crate::genmods::{n_fanin as g_fanin, n_hop as g_hop, n_hop_count as g_hop_count, n_hop_fold as g_hop_fold, n_m2o as g_m2o, n_o2m as g_o2m, n_roundtrip as g_rt};
+use crate::genmods::{n_lossy as g_lossy, n_fanin as g_fanin, n_hop as g_hop, n_hop_count as g_hop_count, n_hop_fold as g_hop_fold, n_m2o as g_m2o, n_o2m as g_o2m, n_roundtrip as g_rt};
 
 /// A --ab--> B, output on B
 macro_rules! exec_one_hop {
@@ -189,6 +228,29 @@ macro_rules! exec_one_hop {
 exec_one_hop!(x_n_hop, g_hop, n_hop_a, n_hop_b);
 exec_one_hop!(x_n_hop_fold, g_hop_fold, n_hop_fold_a, n_hop_fold_b);
 exec_one_hop!(x_n_hop_count, g_hop_count, n_hop_count_a, n_hop_count_b);
+
+/// A --ab (lossy_delayed_forever: reordering wire)--> B, two outputs on B
+pub fn x_n_lossy(plan: &Plan, net: &mut dyn NetSched) -> Exec {
+    let ta = Rc::new(Cell::new(0usize));
+    let tb = Rc::new(Cell::new(0usize));
+    let in0 = Queue::<i32>::new();
+    let rx = Queue::<RecvItem>::new();
+    let wire = Wire::<Bytes>::new(&rx, to_recv).reordering();
+    let out0 = OutLog::new(&tb);
+    let out1 = OutLog::new(&tb);
+    let st = {
+        let mut net_out = g_lossy::n_lossy_a::EmbeddedNetworkOut { ab: wire.sender() };
+        let mut flow_a = g_lossy::n_lossy_a(in0.stream(), &mut net_out);
+        let mut outs = g_lossy::n_lossy_b::EmbeddedOutputs { out0: |x| out0.push(x), out1: |x| out1.push(x) };
+        let mut flow_b = g_lossy::n_lossy_b(&mut outs, g_lossy::n_lossy_b::EmbeddedNetworkIn { ab: rx.stream() });
+        let mut locs = vec![
+            LocCtl { run_tick: Box::new(|| flow_a.run_tick_sync()), ticks: ta.clone(), inbound: vec![], feeds: vec![(0, &in0)] },
+            LocCtl { run_tick: Box::new(|| flow_b.run_tick_sync()), ticks: tb.clone(), inbound: vec![0], feeds: vec![] },
+        ];
+        drive_net(plan, &mut locs, &[&wire], net)
+    };
+    collect(st, vec![(tb.get(), out0.take()), (tb.get(), out1.take())])
+}
 
 /// A --ab--> B --ba--> A, output on A
 pub fn x_n_roundtrip(plan: &Plan, net: &mut dyn NetSched) -> Exec {
